@@ -112,7 +112,7 @@ def expected(stack, shape, miss, hit, owner, net, ncall):
     """What the read call must return given which servers failed."""
     if stack.startswith("hash"):
         # HashClient remembers a server as failing only after a network-level (OSError) failure
-        failed = {a for (c, a, l) in net.hard if c == ncall or (c < ncall and network_level(l))}
+        failed = {a for (c, a, l) in net.hard if c == ncall} | network_failed_before(net, ncall)
     else:
         failed = {a for (c, a, l) in net.hard if c == ncall}
     ks = keys_of(shape)
@@ -130,10 +130,16 @@ def expected(stack, shape, miss, hit, owner, net, ncall):
     return hit
 
 
-def network_level(label):
-    if isinstance(label, tuple):
-        return label[0] == "trunc_stall"  # ends in a receive timeout
-    return label in ("refused", "timeout", "reset", "timeout_after")
+def network_failed_before(net, ncall):
+    """Servers on which an earlier call ended in an OSError-type failure (what HashClient's failover
+    reacts to), read off the socket events: a failed connect/send/receive other than EINTR."""
+    out = set()
+    for e in net.events:
+        if e[1] < ncall and e[2] in ("connect_fail", "sendall_fail", "recv_fail") and e[3] >= 0:
+            reason = e[5] if e[2] == "connect_fail" else e[4]
+            if reason != "eintr":
+                out.add(net.socks[e[3]].addr)
+    return out
 
 
 def same(a, b):
@@ -161,7 +167,7 @@ def _jobs(tier):
 def _worker(job, chk):
     stack, serde, warm, si, tier = job
     shape = SHAPES[si]
-    bound = 1 if tier == "quick" else 2
+    bound = 2 if tier == "quick" else 3
     miss, hit, owner = baselines(stack, serde, warm, shape)
     cname = cls_of(stack).__name__
     if miss[0] == "exc":
@@ -221,7 +227,7 @@ def run(chk):
     chk.rule = RULE
     chk.assumptions = ["a hard deviation (refused/timeout/reset/EOF/error line/garbage/truncation/foreign key) makes the exchange it hits fail",
                        "for a multi-server HashClient the keys of the servers that did not fail are still expected"]
-    chk.info["deviation_bound_completed"] = 1 if chk.tier == "quick" else 2
+    chk.info["deviation_bound_completed"] = 2 if chk.tier == "quick" else 3
     runner.parallel(chk, _worker, _jobs(chk.tier))
 
 
